@@ -230,10 +230,24 @@ def run(chk):
     def counting(self, *a, **k):
         counter[0] += 1
         return orig_ps(self, *a, **k)
-    for fam, width in (('custom_chain2', 2), ('custom_chain3', 3), ('custom_fan', 0)):
+    # 'custom_fib' / 'custom_ladder': definitions SHARED between definitions (a DAG, not a chain): s_i uses s_{i+1} and s_{i+2};
+    # two selectors per level both use both selectors of the next level.  Compiled once each only if what a nested compile
+    # produces is kept for its siblings.
+    for fam, width in (('custom_chain2', 2), ('custom_chain3', 3), ('custom_fan', 0), ('custom_fib', -1), ('custom_ladder', -2)):
         ts = []
         for n in ([4, 8, 12, 16, 20, 24] if quick else [4, 8, 12, 16, 20, 24, 32, 48]):
-            if width:
+            if width == -1:
+                table = {f':--s{i}': f'p, :--s{i + 1}, :--s{i + 2}' for i in range(n)}
+                table[f':--s{n}'] = 'p'
+                table[f':--s{n + 1}'] = 'i'
+            elif width == -2:
+                table = {':--s0': ':--a0 :--b0'}
+                for i in range(n):
+                    table[f':--a{i}'] = f':--a{i + 1} > :--b{i + 1}'
+                    table[f':--b{i}'] = f':--b{i + 1}, :--a{i + 1}'
+                table[f':--a{n}'] = 'p'
+                table[f':--b{n}'] = 'i'
+            elif width:
                 table = {f':--s{i}': f':--s{i + 1}' * width for i in range(n)}
                 table[f':--s{n}'] = 'p'
             else:
